@@ -251,7 +251,7 @@ TStep2 == /\ l <= Len(Tr) /\ Ev.e # "Reset" /\ ~skip
                 ELSE /\ bad' = Append(bad, [l |-> l, id |-> Ev.id, e |-> Ev.e, why |-> v,
                                              hit |-> IF IsCall THEN Ev.hit ELSE FALSE,
                                              delivered |-> delivered,
-                                             detail |-> IF Ev.e = "File" THEN ParseWhy(Ev.bytes) ELSE ""])
+                                             detail |-> IF Ev.e = "File" THEN ParseWhy(Ev.bytes, Layout) ELSE ""])
                      /\ skip' = TRUE /\ UNCHANGED <<wvars, avars, rd, sch, stats>>
           /\ l' = l + 1
 
